@@ -361,11 +361,12 @@ Section Spec.
   Lemma step_inv s o :
     Inv s -> Inv (fst (step check matches post_init s o)).
   Proof.
-    intros HI. destruct o as [regex op cfg alg| |op scope|]; cbn [step].
+    intros HI. destruct o as [regex op cfg alg| | |op scope|]; cbn [step].
     - destruct (add check s regex op cfg alg) as [s'|e] eqn:E; cbn [fst]; [|assumption].
       eapply add_inv; eassumption.
     - destruct (load check post_init (get_recipe s)) as [s'|e] eqn:E; cbn [fst]; [|assumption].
       unfold load in E. eapply foldM_load_inv; [apply Inv_init|eassumption].
+    - cbn [load foldM fst]. apply Inv_init.
     - destruct (get check matches s op scope). cbn [fst]. assumption.
     - cbn [fst]. assumption.
   Qed.
